@@ -164,10 +164,13 @@ class Ctx:
                 cur = o[5] if len(o) > 5 else None
                 replay = {"exe": os.path.basename(exe), "sub": sub, "seed": self.seed, "case": cur, "args": list(args)}
                 if hung:
-                    # wall-clock watchdog: inconclusive; re-run the single case alone once
-                    again = self._rerun_single(exe, sub, cur, args, env, timeout * 3)
+                    # wall-clock watchdog: inconclusive; re-run the single case alone once.  At most four such re-runs per fan: a change that makes
+                    # every case hang must not turn a check into hours of sequential waiting (the remaining hangs are recorded without a second try)
+                    reruns_done = getattr(self, "_reruns_%s" % tag, 0)
+                    setattr(self, "_reruns_%s" % tag, reruns_done + 1)
+                    again = self._rerun_single(exe, sub, cur, args, env, timeout * 3) if reruns_done < 4 else "hang"
                     if again == "hang":
-                        self.inconclusive.append("case %s of %s exceeded the watchdog twice" % (cur, sub))
+                        self.inconclusive.append("case %s of %s exceeded the watchdog%s" % (cur, sub, " twice" if reruns_done < 4 else " (not re-run: four re-runs already spent)"))
                     elif again is not None:
                         self.violation(again[0], again[1], replay)
                 elif rc == -9:
